@@ -81,7 +81,7 @@ def S(lo, hi, flags, pop=2, coord="i32", inject=0, crash=0, cap_s=3000, t=2, ema
     return {"args": a, "label": label or f"seg<{coord}>[{lo},{hi}] pop<={pop}" + (f" inject<={inject}" if inject else "") + (" crash-only" if crash else "")}
 
 
-def F(sys, flags, pay="u16", hint=8, sizes=None, crash=0, label=None, inject=0):
+def F(sys, flags, pay="u16", hint=8, sizes=None, crash=0, label=None, inject=0, sparse=0):
     """deterministic family of long histories (trees of 9..120 entries, all insertion/deletion order patterns)"""
     n = 120
     if sizes:
@@ -93,6 +93,9 @@ def F(sys, flags, pay="u16", hint=8, sizes=None, crash=0, label=None, inject=0):
         a += ["--crash-only", "1"]
     if inject:
         a += ["--inject", "1"]
+    if sparse:
+        a += ["--sparse", "1"]
+        label = label or f"family {sys}<{pay}> sizes {sizes or '9..120'} hint={hint}: explicit queries in scrambled order between the updates, observation suite every 16th step"
     return {"args": a, "label": label or f"family {sys}<{pay}> sizes {sizes or '9..120'} hint={hint}" + (" crash-only" if crash else "") + (" + a panic at every callback of every step" if inject else "")}
 
 
@@ -148,26 +151,26 @@ SPECS["C20"] = {
 
 # --- map / set ---------------------------------------------------------------
 SPECS["C04"] = {
-    "quick": [M("maptree", 3, MA + ",o_ref,o_handle", quq=1, cs=2), M("maptree", 3, MA + ",o_ref", quq=1, tail2=2), M("maptree", 3, MA + ",o_ref", quq=2), M("maptree", 3, MA + ",o_ref", deep=3), M("maptree", 5, MA + ",o_ref", audit=1), M("maptree", 5, MAW + ",o_ref", pay="track"), F("maptree", MA + ",o_ref", pay="track", sizes="9,17,33"), F("maptree", MA + ",o_ref"), F("maptree", MA + ",o_ref", pay="heap", hint=0, sizes="9,17,33,65"), M("maptree", 6, MA + ",o_ref"), M("maptree", 4, MAW + ",o_ref", pay="heap", hint=0), M("maptree", 4, MAW + ",o_ref", hint=1),
+    "quick": [F("maptree", MA + ",o_ref,o_handle", sparse=1), M("maptree", 3, MA + ",o_ref,o_handle", quq=1, cs=2), M("maptree", 3, MA + ",o_ref", quq=1, tail2=2), M("maptree", 3, MA + ",o_ref", quq=2), M("maptree", 3, MA + ",o_ref", deep=3), M("maptree", 5, MA + ",o_ref", audit=1), M("maptree", 5, MAW + ",o_ref", pay="track"), F("maptree", MA + ",o_ref", pay="track", sizes="9,17,33"), F("maptree", MA + ",o_ref"), F("maptree", MA + ",o_ref", pay="heap", hint=0, sizes="9,17,33,65"), M("maptree", 6, MA + ",o_ref"), M("maptree", 4, MAW + ",o_ref", pay="heap", hint=0), M("maptree", 4, MAW + ",o_ref", hint=1),
               M("maptree", 10, "del,clear,o_ref", mode="shape"), M("maptree", 10, "del,clear,o_ref", mode="shape", hint=9), M("maptree", 3, MA + ",o_ref", mode="full"), M("maptree", 3, MAW + ",o_ref", hint=64)],
-    "thorough": [M("maptree", 4, MA + ",o_ref,o_handle", quq=1, cs=2), M("maptree", 3, MA + ",o_ref,o_handle", quq=2, cs=2), M("maptree", 3, MA + ",o_ref,o_handle", quq=1, cs=2), M("maptree", 4, MAW + ",o_ref", quq=1, tail2=2), M("maptree", 14, "del,clear,o_ref", mode="shape", cap_s=1500), M("maptree", 3, MAW + ",o_ref", quq=2), M("maptree", 3, MAW + ",o_ref", deep=3), M("maptree", 5, MA + ",o_ref", audit=1), M("maptree", 5, MAW + ",o_ref", pay="track"), F("maptree", MA + ",o_ref", pay="track", sizes="9,17,33"), F("maptree", MA + ",o_ref"), F("maptree", MA + ",o_ref", pay="heap", hint=0, sizes="9,17,33,65"), M("maptree", 7, MA + ",o_ref"), M("maptree", 6, MA + ",o_ref", pay="heap", hint=0), M("maptree", 5, MAW + ",o_ref", hint=1),
+    "thorough": [F("maptree", MA + ",o_ref,o_handle", sparse=1), M("maptree", 4, MA + ",o_ref,o_handle", quq=1, cs=2), M("maptree", 3, MA + ",o_ref,o_handle", quq=2, cs=2), M("maptree", 3, MA + ",o_ref,o_handle", quq=1, cs=2), M("maptree", 4, MAW + ",o_ref", quq=1, tail2=2), M("maptree", 14, "del,clear,o_ref", mode="shape", cap_s=1500), M("maptree", 3, MAW + ",o_ref", quq=2), M("maptree", 3, MAW + ",o_ref", deep=3), M("maptree", 5, MA + ",o_ref", audit=1), M("maptree", 5, MAW + ",o_ref", pay="track"), F("maptree", MA + ",o_ref", pay="track", sizes="9,17,33"), F("maptree", MA + ",o_ref"), F("maptree", MA + ",o_ref", pay="heap", hint=0, sizes="9,17,33,65"), M("maptree", 7, MA + ",o_ref"), M("maptree", 6, MA + ",o_ref", pay="heap", hint=0), M("maptree", 5, MAW + ",o_ref", hint=1),
                  M("maptree", 12, "del,clear,o_ref", mode="shape"), M("maptree", 12, "del,clear,o_ref", mode="shape", hint=9), M("maptree", 4, "del,clear,o_ref", mode="full", max_states=30000000, cap_s=1200), M("maptree", 5, MAW + ",o_ref", hint=64)],
 }
 SPECS["C05"] = {
-    "quick": [M("settree", 3, MA + ",o_ref,o_handle", quq=1, cs=2), M("settree", 3, MA + ",o_ref", quq=1, tail2=2), M("settree", 3, MA + ",o_ref", quq=2), M("settree", 3, MA + ",o_ref", deep=3), M("settree", 5, MA + ",o_ref", audit=1), M("settree", 5, MAW + ",o_ref", pay="track"), F("settree", MA + ",o_ref", pay="track", sizes="9,17,33"), F("settree", MA + ",o_ref"), F("settree", MA + ",o_ref", pay="heap", hint=0, sizes="9,17,33,65"), M("settree", 6, MA + ",o_ref"), M("settree", 4, MAW + ",o_ref", pay="heap", hint=0), M("settree", 6, MA + ",o_ref", pay="bare", hint=1),
+    "quick": [F("settree", MA + ",o_ref,o_handle", sparse=1), M("settree", 3, MA + ",o_ref,o_handle", quq=1, cs=2), M("settree", 3, MA + ",o_ref", quq=1, tail2=2), M("settree", 3, MA + ",o_ref", quq=2), M("settree", 3, MA + ",o_ref", deep=3), M("settree", 5, MA + ",o_ref", audit=1), M("settree", 5, MAW + ",o_ref", pay="track"), F("settree", MA + ",o_ref", pay="track", sizes="9,17,33"), F("settree", MA + ",o_ref"), F("settree", MA + ",o_ref", pay="heap", hint=0, sizes="9,17,33,65"), M("settree", 6, MA + ",o_ref"), M("settree", 4, MAW + ",o_ref", pay="heap", hint=0), M("settree", 6, MA + ",o_ref", pay="bare", hint=1),
               M("settree", 10, "del,clear,o_ref", mode="shape"), M("settree", 3, MA + ",o_ref", mode="full")],
-    "thorough": [M("settree", 4, MA + ",o_ref,o_handle", quq=1, cs=2), M("settree", 3, MA + ",o_ref,o_handle", quq=2, cs=2), M("settree", 3, MA + ",o_ref,o_handle", quq=1, cs=2), M("settree", 4, MAW + ",o_ref", quq=1, tail2=2), M("settree", 14, "del,clear,o_ref", mode="shape", cap_s=1500), M("settree", 3, MAW + ",o_ref", quq=2), M("settree", 3, MAW + ",o_ref", deep=3), M("settree", 5, MA + ",o_ref", audit=1), M("settree", 5, MAW + ",o_ref", pay="track"), F("settree", MA + ",o_ref", pay="track", sizes="9,17,33"), F("settree", MA + ",o_ref"), F("settree", MA + ",o_ref", pay="heap", hint=0, sizes="9,17,33,65"), M("settree", 7, MA + ",o_ref"), M("settree", 6, MA + ",o_ref", pay="heap", hint=0), M("settree", 6, MA + ",o_ref", pay="bare", hint=1), M("settree", 5, MAW + ",o_ref", hint=64),
+    "thorough": [F("settree", MA + ",o_ref,o_handle", sparse=1), M("settree", 4, MA + ",o_ref,o_handle", quq=1, cs=2), M("settree", 3, MA + ",o_ref,o_handle", quq=2, cs=2), M("settree", 3, MA + ",o_ref,o_handle", quq=1, cs=2), M("settree", 4, MAW + ",o_ref", quq=1, tail2=2), M("settree", 14, "del,clear,o_ref", mode="shape", cap_s=1500), M("settree", 3, MAW + ",o_ref", quq=2), M("settree", 3, MAW + ",o_ref", deep=3), M("settree", 5, MA + ",o_ref", audit=1), M("settree", 5, MAW + ",o_ref", pay="track"), F("settree", MA + ",o_ref", pay="track", sizes="9,17,33"), F("settree", MA + ",o_ref"), F("settree", MA + ",o_ref", pay="heap", hint=0, sizes="9,17,33,65"), M("settree", 7, MA + ",o_ref"), M("settree", 6, MA + ",o_ref", pay="heap", hint=0), M("settree", 6, MA + ",o_ref", pay="bare", hint=1), M("settree", 5, MAW + ",o_ref", hint=64),
                  M("settree", 12, "del,clear,o_ref", mode="shape", hint=9), M("settree", 4, "del,clear,o_ref", mode="full", max_states=30000000, cap_s=1200)],
 }
 SPECS["C08"] = {
-    "quick": [M("maptree", 3, MA + ",o_ref,o_handle", quq=1, cs=2), M("settree", 3, MA + ",o_ref,o_handle", quq=1, cs=2), M("maptree", 3, MA + ",o_handle,o_ref", quq=1, tail2=2), M("settree", 3, MA + ",o_handle,o_ref", quq=1, tail2=2), M("maptree", 3, MA + ",o_handle,o_ref", quq=1, tail2=1), M("settree", 3, MA + ",o_handle,o_ref", quq=1, tail2=1), M("maptree", 3, MA + ",o_handle,o_ref", quq=2), M("settree", 3, MA + ",o_handle,o_ref", quq=2), M("maptree", 3, MA + ",o_handle,o_ref", deep=3), M("settree", 3, MA + ",o_handle,o_ref", deep=3), M("maptree", 5, MA + ",o_handle", audit=1), M("settree", 5, MA + ",o_handle", audit=1), M("settree", 4, MAW + ",o_handle,o_ref", pay="track"), F("maptree", MA + ",o_handle"), F("settree", MA + ",o_handle"), M("maptree", 6, MA + ",o_handle"), M("settree", 6, MA + ",o_handle"), M("maptree", 4, MAW + ",o_handle,o_ref", pay="heap"), M("settree", 4, MAW + ",o_handle,o_ref"),
+    "quick": [F("maptree", MA + ",o_ref,o_handle", sparse=1), F("settree", MA + ",o_ref,o_handle", sparse=1, hint=9), M("maptree", 3, MA + ",o_ref,o_handle", quq=1, cs=2), M("settree", 3, MA + ",o_ref,o_handle", quq=1, cs=2), M("maptree", 3, MA + ",o_handle,o_ref", quq=1, tail2=2), M("settree", 3, MA + ",o_handle,o_ref", quq=1, tail2=2), M("maptree", 3, MA + ",o_handle,o_ref", quq=1, tail2=1), M("settree", 3, MA + ",o_handle,o_ref", quq=1, tail2=1), M("maptree", 3, MA + ",o_handle,o_ref", quq=2), M("settree", 3, MA + ",o_handle,o_ref", quq=2), M("maptree", 3, MA + ",o_handle,o_ref", deep=3), M("settree", 3, MA + ",o_handle,o_ref", deep=3), M("maptree", 5, MA + ",o_handle", audit=1), M("settree", 5, MA + ",o_handle", audit=1), M("settree", 4, MAW + ",o_handle,o_ref", pay="track"), F("maptree", MA + ",o_handle"), F("settree", MA + ",o_handle"), M("maptree", 6, MA + ",o_handle"), M("settree", 6, MA + ",o_handle"), M("maptree", 4, MAW + ",o_handle,o_ref", pay="heap"), M("settree", 4, MAW + ",o_handle,o_ref"),
               M("maptree", 10, "delh,clear,o_handle", mode="shape"), M("settree", 10, "delh,clear,o_handle", mode="shape", hint=9)],
-    "thorough": [M("maptree", 3, MA + ",o_ref,o_handle", quq=1, cs=2), M("settree", 3, MA + ",o_ref,o_handle", quq=1, cs=2), M("maptree", 4, MAW + ",o_handle,o_ref", quq=2, tail2=2), M("maptree", 4, MAW + ",o_handle,o_ref", quq=1, tail2=2), M("settree", 4, MAW + ",o_handle,o_ref", quq=1, tail2=2), M("maptree", 13, "delh,clear,o_handle", mode="shape", cap_s=1500), M("settree", 13, "delh,clear,o_handle", mode="shape", hint=9, cap_s=1500), M("maptree", 3, MAW + ",o_handle,o_ref", quq=1, tail2=1), M("settree", 3, MAW + ",o_handle,o_ref", quq=1, tail2=1), M("maptree", 4, MAW + ",o_handle,o_ref", quq=2), M("settree", 4, MAW + ",o_handle,o_ref", quq=2), M("maptree", 3, MAW + ",o_handle,o_ref", quq=3), M("maptree", 3, MAW + ",o_handle,o_ref", quq=2), M("settree", 3, MAW + ",o_handle,o_ref", quq=2), M("maptree", 4, MAW + ",o_handle,o_ref", deep=3), M("settree", 4, MAW + ",o_handle,o_ref", deep=3), M("maptree", 3, MAW + ",o_handle,o_ref", deep=3), M("settree", 3, MAW + ",o_handle,o_ref", deep=3), M("maptree", 5, MA + ",o_handle", audit=1), M("settree", 5, MA + ",o_handle", audit=1), M("settree", 4, MAW + ",o_handle,o_ref", pay="track"), F("maptree", MA + ",o_handle"), F("settree", MA + ",o_handle"), M("maptree", 7, MA + ",o_handle"), M("settree", 7, MA + ",o_handle"), M("maptree", 5, MAW + ",o_handle,o_ref", pay="heap"), M("settree", 5, MAW + ",o_handle,o_ref"),
+    "thorough": [F("maptree", MA + ",o_ref,o_handle", sparse=1), F("settree", MA + ",o_ref,o_handle", sparse=1, hint=9), M("maptree", 3, MA + ",o_ref,o_handle", quq=1, cs=2), M("settree", 3, MA + ",o_ref,o_handle", quq=1, cs=2), M("maptree", 4, MAW + ",o_handle,o_ref", quq=2, tail2=2), M("maptree", 4, MAW + ",o_handle,o_ref", quq=1, tail2=2), M("settree", 4, MAW + ",o_handle,o_ref", quq=1, tail2=2), M("maptree", 13, "delh,clear,o_handle", mode="shape", cap_s=1500), M("settree", 13, "delh,clear,o_handle", mode="shape", hint=9, cap_s=1500), M("maptree", 3, MAW + ",o_handle,o_ref", quq=1, tail2=1), M("settree", 3, MAW + ",o_handle,o_ref", quq=1, tail2=1), M("maptree", 4, MAW + ",o_handle,o_ref", quq=2), M("settree", 4, MAW + ",o_handle,o_ref", quq=2), M("maptree", 3, MAW + ",o_handle,o_ref", quq=3), M("maptree", 3, MAW + ",o_handle,o_ref", quq=2), M("settree", 3, MAW + ",o_handle,o_ref", quq=2), M("maptree", 4, MAW + ",o_handle,o_ref", deep=3), M("settree", 4, MAW + ",o_handle,o_ref", deep=3), M("maptree", 3, MAW + ",o_handle,o_ref", deep=3), M("settree", 3, MAW + ",o_handle,o_ref", deep=3), M("maptree", 5, MA + ",o_handle", audit=1), M("settree", 5, MA + ",o_handle", audit=1), M("settree", 4, MAW + ",o_handle,o_ref", pay="track"), F("maptree", MA + ",o_handle"), F("settree", MA + ",o_handle"), M("maptree", 7, MA + ",o_handle"), M("settree", 7, MA + ",o_handle"), M("maptree", 5, MAW + ",o_handle,o_ref", pay="heap"), M("settree", 5, MAW + ",o_handle,o_ref"),
                  M("maptree", 12, "delh,clear,o_handle", mode="shape"), M("settree", 12, "delh,clear,o_handle", mode="shape", hint=9)],
 }
 SPECS["C09"] = {
-    "quick": [M("settree", 3, MA + ",o_neigh,o_handle", quq=1, cs=2), M("settree", 3, MA + ",o_neigh,o_handle", quq=1, tail2=2), M("settree", 3, MA + ",o_neigh,o_handle", quq=1, tail2=1), M("settree", 3, MA + ",o_neigh,o_handle", quq=2), M("settree", 3, MA + ",o_neigh,o_handle", deep=3), M("settree", 5, MA + ",o_neigh", audit=1), F("settree", MA + ",o_neigh"), M("settree", 6, MA + ",o_neigh"), M("settree", 6, MA + ",o_neigh", pay="bare"), M("settree", 10, "del,clear,o_neigh", mode="shape"), M("settree", 3, MA + ",o_neigh", mode="full")],
-    "thorough": [M("settree", 3, MA + ",o_neigh,o_handle", quq=1, cs=2), M("settree", 4, MA + ",o_neigh,o_handle", quq=1, tail2=2), M("settree", 14, "del,clear,o_neigh", mode="shape", cap_s=1500), M("settree", 3, MA + ",o_neigh,o_handle", quq=1, tail2=1), M("settree", 4, MA + ",o_neigh,o_handle", quq=2), M("settree", 3, MA + ",o_neigh,o_handle", quq=2), M("settree", 3, MA + ",o_neigh,o_handle", deep=3), M("settree", 5, MA + ",o_neigh", audit=1), F("settree", MA + ",o_neigh"), M("settree", 7, MA + ",o_neigh"), M("settree", 6, MA + ",o_neigh", pay="bare"), M("settree", 12, "del,clear,o_neigh", mode="shape", hint=9), M("settree", 6, MA + ",o_neigh", pay="heap", hint=64)],
+    "quick": [F("settree", MA + ",o_neigh,o_handle", sparse=1), M("settree", 3, MA + ",o_neigh,o_handle", quq=1, cs=2), M("settree", 3, MA + ",o_neigh,o_handle", quq=1, tail2=2), M("settree", 3, MA + ",o_neigh,o_handle", quq=1, tail2=1), M("settree", 3, MA + ",o_neigh,o_handle", quq=2), M("settree", 3, MA + ",o_neigh,o_handle", deep=3), M("settree", 5, MA + ",o_neigh", audit=1), F("settree", MA + ",o_neigh"), M("settree", 6, MA + ",o_neigh"), M("settree", 6, MA + ",o_neigh", pay="bare"), M("settree", 10, "del,clear,o_neigh", mode="shape"), M("settree", 3, MA + ",o_neigh", mode="full")],
+    "thorough": [F("settree", MA + ",o_neigh,o_handle", sparse=1), M("settree", 3, MA + ",o_neigh,o_handle", quq=1, cs=2), M("settree", 4, MA + ",o_neigh,o_handle", quq=1, tail2=2), M("settree", 14, "del,clear,o_neigh", mode="shape", cap_s=1500), M("settree", 3, MA + ",o_neigh,o_handle", quq=1, tail2=1), M("settree", 4, MA + ",o_neigh,o_handle", quq=2), M("settree", 3, MA + ",o_neigh,o_handle", quq=2), M("settree", 3, MA + ",o_neigh,o_handle", deep=3), M("settree", 5, MA + ",o_neigh", audit=1), F("settree", MA + ",o_neigh"), M("settree", 7, MA + ",o_neigh"), M("settree", 6, MA + ",o_neigh", pay="bare"), M("settree", 12, "del,clear,o_neigh", mode="shape", hint=9), M("settree", 6, MA + ",o_neigh", pay="heap", hint=64)],
 }
 SPECS["C17"] = {
     "quick": [M("maptree", 3, MA + ",o_hstab,o_handle", quq=2), M("settree", 3, MA + ",o_hstab,o_handle", quq=2), F("maptree", MA + ",o_hstab"), F("settree", MA + ",o_hstab", hint=9), M("maptree", 6, MA + ",o_hstab"), M("settree", 6, MA + ",o_hstab"), M("maptree", 10, "del,clear,o_hstab", mode="shape"), M("settree", 10, "del,clear,o_hstab", mode="shape", hint=9), M("maptree", 4, MAW + ",o_hstab", pay="heap")],
@@ -199,8 +202,8 @@ SPECS["C12"] = {
 LISTS_M = MAW + ",o_ref,o_handle,o_pos,o_rb,o_neigh"
 LISTS_K = KA + ",o_pred,o_get,o_export,o_log,o_rb"
 SPECS["C13"] = {
-    "quick": [M("maplist", 3, LISTS_M, quq=1, cs=2), M("setlist", 3, LISTS_M, quq=1, cs=2), K("klist", 2, 2, LISTS_K, quq=1, cs=1), K("klist", 3, 2, LISTS_K, quq=1, tail2=2), M("maplist", 3, LISTS_M, quq=1, tail2=2), M("setlist", 3, LISTS_M, quq=1, tail2=2), K("klist", 2, 2, LISTS_K, quq=1, tail2=1), M("maplist", 3, LISTS_M, quq=1, tail2=1), M("setlist", 3, LISTS_M, quq=1, tail2=1), M("maplist", 3, LISTS_M, quq=2), M("setlist", 3, LISTS_M, quq=2), K("klist", 2, 2, LISTS_K, quq=2), K("klist", 3, 2, LISTS_K, quq=1), M("maplist", 3, LISTS_M, deep=3), M("setlist", 3, LISTS_M, deep=3), K("klist", 2, 2, LISTS_K, deep=3), K("klist", 3, 3, LISTS_K, audit=1), M("maplist", 5, LISTS_M, audit=1), M("setlist", 5, LISTS_M, audit=1), M("maplist", 5, LISTS_M, pay="track"), M("setlist", 5, LISTS_M, pay="track"), K("klist", 3, 3, LISTS_K, tbase=252), K("klist", 4, 3, LISTS_K + ",o_twin", tbase=251), F("maplist", LISTS_M, sizes="9,17,33,65"), F("setlist", LISTS_M, sizes="9,17,33,65"), F("klist", "fl,fle,fleby,get,o_pred,o_get,o_export,o_log,o_rb"), K("klist", 4, 3, LISTS_K, tbase=251), M("maplist", 6, LISTS_M), M("setlist", 6, LISTS_M), M("maplist", 5, LISTS_M, pay="heap", hint=0), K("klist", 4, 4, LISTS_K), K("klist", 3, 3, LISTS_K, hint=0)],
-    "thorough": [M("maplist", 3, LISTS_M, quq=1, cs=2), M("setlist", 3, LISTS_M, quq=1, cs=2), K("klist", 2, 2, LISTS_K, quq=1, cs=1), K("klist", 3, 2, LISTS_K, quq=1, tail2=2), M("maplist", 4, LISTS_M, quq=1, tail2=2), M("setlist", 4, LISTS_M, quq=1, tail2=2), K("klist", 2, 2, LISTS_K, quq=1, tail2=1), M("maplist", 3, LISTS_M, quq=1, tail2=1), M("setlist", 3, LISTS_M, quq=1, tail2=1), M("maplist", 4, LISTS_M, quq=2), M("setlist", 4, LISTS_M, quq=2), K("klist", 3, 2, LISTS_K, quq=2), M("maplist", 3, LISTS_M, quq=2), M("setlist", 3, LISTS_M, quq=2), K("klist", 2, 2, LISTS_K, quq=2), K("klist", 3, 2, LISTS_K, quq=1), M("maplist", 3, LISTS_M, deep=3), M("setlist", 3, LISTS_M, deep=3), K("klist", 2, 2, LISTS_K, deep=3), K("klist", 3, 3, LISTS_K, audit=1), M("maplist", 5, LISTS_M, audit=1), M("setlist", 5, LISTS_M, audit=1), M("maplist", 5, LISTS_M, pay="track"), M("setlist", 5, LISTS_M, pay="track"), K("klist", 3, 3, LISTS_K, tbase=252), K("klist", 4, 3, LISTS_K + ",o_twin", tbase=251), F("maplist", LISTS_M, sizes="9,17,33,65"), F("setlist", LISTS_M, sizes="9,17,33,65"), F("klist", "fl,fle,fleby,get,o_pred,o_get,o_export,o_log,o_rb"), M("maplist", 8, LISTS_M), M("setlist", 8, LISTS_M), M("setlist", 6, LISTS_M, pay="heap", hint=0), K("klist", 5, 4, LISTS_K, cap_s=900), K("klist", 4, 5, LISTS_K)],
+    "quick": [F("maplist", LISTS_M, sizes="9,17,33,65", sparse=1), F("setlist", LISTS_M, sizes="9,17,33,65", sparse=1), M("maplist", 3, LISTS_M, quq=1, cs=2), M("setlist", 3, LISTS_M, quq=1, cs=2), K("klist", 2, 2, LISTS_K, quq=1, cs=1), K("klist", 3, 2, LISTS_K, quq=1, tail2=2), M("maplist", 3, LISTS_M, quq=1, tail2=2), M("setlist", 3, LISTS_M, quq=1, tail2=2), K("klist", 2, 2, LISTS_K, quq=1, tail2=1), M("maplist", 3, LISTS_M, quq=1, tail2=1), M("setlist", 3, LISTS_M, quq=1, tail2=1), M("maplist", 3, LISTS_M, quq=2), M("setlist", 3, LISTS_M, quq=2), K("klist", 2, 2, LISTS_K, quq=2), K("klist", 3, 2, LISTS_K, quq=1), M("maplist", 3, LISTS_M, deep=3), M("setlist", 3, LISTS_M, deep=3), K("klist", 2, 2, LISTS_K, deep=3), K("klist", 3, 3, LISTS_K, audit=1), M("maplist", 5, LISTS_M, audit=1), M("setlist", 5, LISTS_M, audit=1), M("maplist", 5, LISTS_M, pay="track"), M("setlist", 5, LISTS_M, pay="track"), K("klist", 3, 3, LISTS_K, tbase=252), K("klist", 4, 3, LISTS_K + ",o_twin", tbase=251), F("maplist", LISTS_M, sizes="9,17,33,65"), F("setlist", LISTS_M, sizes="9,17,33,65"), F("klist", "fl,fle,fleby,get,o_pred,o_get,o_export,o_log,o_rb"), K("klist", 4, 3, LISTS_K, tbase=251), M("maplist", 6, LISTS_M), M("setlist", 6, LISTS_M), M("maplist", 5, LISTS_M, pay="heap", hint=0), K("klist", 4, 4, LISTS_K), K("klist", 3, 3, LISTS_K, hint=0)],
+    "thorough": [F("maplist", LISTS_M, sizes="9,17,33,65", sparse=1), F("setlist", LISTS_M, sizes="9,17,33,65", sparse=1), M("maplist", 3, LISTS_M, quq=1, cs=2), M("setlist", 3, LISTS_M, quq=1, cs=2), K("klist", 2, 2, LISTS_K, quq=1, cs=1), K("klist", 3, 2, LISTS_K, quq=1, tail2=2), M("maplist", 4, LISTS_M, quq=1, tail2=2), M("setlist", 4, LISTS_M, quq=1, tail2=2), K("klist", 2, 2, LISTS_K, quq=1, tail2=1), M("maplist", 3, LISTS_M, quq=1, tail2=1), M("setlist", 3, LISTS_M, quq=1, tail2=1), M("maplist", 4, LISTS_M, quq=2), M("setlist", 4, LISTS_M, quq=2), K("klist", 3, 2, LISTS_K, quq=2), M("maplist", 3, LISTS_M, quq=2), M("setlist", 3, LISTS_M, quq=2), K("klist", 2, 2, LISTS_K, quq=2), K("klist", 3, 2, LISTS_K, quq=1), M("maplist", 3, LISTS_M, deep=3), M("setlist", 3, LISTS_M, deep=3), K("klist", 2, 2, LISTS_K, deep=3), K("klist", 3, 3, LISTS_K, audit=1), M("maplist", 5, LISTS_M, audit=1), M("setlist", 5, LISTS_M, audit=1), M("maplist", 5, LISTS_M, pay="track"), M("setlist", 5, LISTS_M, pay="track"), K("klist", 3, 3, LISTS_K, tbase=252), K("klist", 4, 3, LISTS_K + ",o_twin", tbase=251), F("maplist", LISTS_M, sizes="9,17,33,65"), F("setlist", LISTS_M, sizes="9,17,33,65"), F("klist", "fl,fle,fleby,get,o_pred,o_get,o_export,o_log,o_rb"), M("maplist", 8, LISTS_M), M("setlist", 8, LISTS_M), M("setlist", 6, LISTS_M, pay="heap", hint=0), K("klist", 5, 4, LISTS_K, cap_s=900), K("klist", 4, 5, LISTS_K)],
 }
 
 # --- segment tree --------------------------------------------------------------
@@ -236,13 +239,13 @@ SPECS["C18"] = {
 ALL_M = MAW + ",o_ref,o_handle,o_neigh,o_hstab"
 ALL_K = KA + ",o_pred,o_get,o_export"
 SPECS["C10"] = {
-    "quick": [M("maptree", 3, ALL_M, crash=1, hint=1000), M("settree", 3, ALL_M, crash=1, hint=1000), K("ktree", 3, 2, ALL_K, crash=1, hint=1000), M("maptree", 3, ALL_M, crash=1, quq=2), M("settree", 3, ALL_M, crash=1, quq=2), K("ktree", 2, 2, ALL_K, crash=1, quq=2), M("maptree", 4, ALL_M, crash=1, pay="track"), M("settree", 4, ALL_M, crash=1, pay="track"), FS(0, 31, "o_query", crash=1), FS(-1000, 3095, "o_query", crash=1), K("ktree", 3, 3, ALL_K, crash=1, tbase=252), K("klist", 3, 3, ALL_K, crash=1, tbase=252), F("maptree", ALL_M, crash=1), F("settree", ALL_M, crash=1), F("ktree", "fl,fle,fleby,get,o_pred,o_get,o_export", crash=1), K("ktree", 3, 3, ALL_K, crash=1, tbase=251), K("klist", 3, 3, ALL_K, crash=1, tbase=251), K("ktree", 4, 2, ALL_K, crash=1), M("maptree", 5, ALL_M, crash=1), M("settree", 5, ALL_M, crash=1), M("maplist", 5, ALL_M, crash=1), M("setlist", 5, ALL_M, crash=1),
+    "quick": [F("maptree", ALL_M, crash=1, sparse=1), F("settree", ALL_M, crash=1, sparse=1), M("maptree", 3, ALL_M, crash=1, hint=1000), M("settree", 3, ALL_M, crash=1, hint=1000), K("ktree", 3, 2, ALL_K, crash=1, hint=1000), M("maptree", 3, ALL_M, crash=1, quq=2), M("settree", 3, ALL_M, crash=1, quq=2), K("ktree", 2, 2, ALL_K, crash=1, quq=2), M("maptree", 4, ALL_M, crash=1, pay="track"), M("settree", 4, ALL_M, crash=1, pay="track"), FS(0, 31, "o_query", crash=1), FS(-1000, 3095, "o_query", crash=1), K("ktree", 3, 3, ALL_K, crash=1, tbase=252), K("klist", 3, 3, ALL_K, crash=1, tbase=252), F("maptree", ALL_M, crash=1), F("settree", ALL_M, crash=1), F("ktree", "fl,fle,fleby,get,o_pred,o_get,o_export", crash=1), K("ktree", 3, 3, ALL_K, crash=1, tbase=251), K("klist", 3, 3, ALL_K, crash=1, tbase=251), K("ktree", 4, 2, ALL_K, crash=1), M("maptree", 5, ALL_M, crash=1), M("settree", 5, ALL_M, crash=1), M("maplist", 5, ALL_M, crash=1), M("setlist", 5, ALL_M, crash=1),
               M("maptree", 4, ALL_M, crash=1, hint=0, pay="heap"), M("settree", 4, ALL_M, crash=1, hint=1, pay="bare"), M("maptree", 10, "del,delh,clear,o_handle", mode="shape", crash=1, hint=9), M("settree", 10, "del,delh,clear,o_neigh", mode="shape", crash=1, hint=9), M("settree", 3, ALL_M, crash=1, hint=64),
               K("ktree", 3, 3, ALL_K, crash=1), K("klist", 3, 3, ALL_K, crash=1), K("ktree", 3, 2, ALL_K, crash=1, hint=0), K("ktree", 3, 2, ALL_K, crash=1, hint=64), K("ktree", 8, 0, "fleby,get,clear,o_export", mode="shape", crash=1, hint=9),
               S(0, 16, SA + ",o_query", crash=1), S(0, 31, SA + ",o_query", crash=1), S(-7, 92, SA + ",o_query", crash=1), S(-(1 << 31), (1 << 31) - 1, SA + ",o_query", crash=1),
               SW("layout", lmax=600, all_coords=600, label="layout sweep (constructor and edge coordinates, process outcome only)"), SW("dpairs", lo=0, hi=128, label="all insert x query range pairs on [0,128] (process outcome)"),
               SW("niche", type="key", label="KeyExpTree::new with a key type that has no all-zero value"), SW("niche", type="val", label="KeyExpTree::new with a value type that has no all-zero value"), SW("niche", type="list", label="KeyExpList with the same key type")],
-    "thorough": [M("maptree", 3, ALL_M, crash=1, hint=1000), M("settree", 3, ALL_M, crash=1, hint=1000), K("ktree", 3, 2, ALL_K, crash=1, hint=1000), M("maptree", 14, "del,delh,clear,o_handle", mode="shape", crash=1, cap_s=1500), M("settree", 14, "del,delh,clear,o_neigh", mode="shape", crash=1, hint=9, cap_s=1500), M("maptree", 3, ALL_M, crash=1, quq=2), M("settree", 3, ALL_M, crash=1, quq=2), K("ktree", 2, 2, ALL_K, crash=1, quq=2), M("maptree", 4, ALL_M, crash=1, pay="track"), M("settree", 4, ALL_M, crash=1, pay="track"), FS(0, 31, "o_query", crash=1), FS(-1000, 3095, "o_query", crash=1), K("ktree", 3, 3, ALL_K, crash=1, tbase=252), K("klist", 3, 3, ALL_K, crash=1, tbase=252), F("maptree", ALL_M, crash=1), F("settree", ALL_M, crash=1), F("ktree", "fl,fle,fleby,get,o_pred,o_get,o_export", crash=1), M("maptree", 7, MA + ",o_ref,o_handle,o_hstab", crash=1), M("settree", 7, MA + ",o_ref,o_handle,o_neigh,o_hstab", crash=1), M("maplist", 7, ALL_M, crash=1), M("setlist", 7, ALL_M, crash=1),
+    "thorough": [F("maptree", ALL_M, crash=1, sparse=1), F("settree", ALL_M, crash=1, sparse=1), M("maptree", 3, ALL_M, crash=1, hint=1000), M("settree", 3, ALL_M, crash=1, hint=1000), K("ktree", 3, 2, ALL_K, crash=1, hint=1000), M("maptree", 14, "del,delh,clear,o_handle", mode="shape", crash=1, cap_s=1500), M("settree", 14, "del,delh,clear,o_neigh", mode="shape", crash=1, hint=9, cap_s=1500), M("maptree", 3, ALL_M, crash=1, quq=2), M("settree", 3, ALL_M, crash=1, quq=2), K("ktree", 2, 2, ALL_K, crash=1, quq=2), M("maptree", 4, ALL_M, crash=1, pay="track"), M("settree", 4, ALL_M, crash=1, pay="track"), FS(0, 31, "o_query", crash=1), FS(-1000, 3095, "o_query", crash=1), K("ktree", 3, 3, ALL_K, crash=1, tbase=252), K("klist", 3, 3, ALL_K, crash=1, tbase=252), F("maptree", ALL_M, crash=1), F("settree", ALL_M, crash=1), F("ktree", "fl,fle,fleby,get,o_pred,o_get,o_export", crash=1), M("maptree", 7, MA + ",o_ref,o_handle,o_hstab", crash=1), M("settree", 7, MA + ",o_ref,o_handle,o_neigh,o_hstab", crash=1), M("maplist", 7, ALL_M, crash=1), M("setlist", 7, ALL_M, crash=1),
                  M("maptree", 5, ALL_M, crash=1, hint=0, pay="heap"), M("settree", 6, ALL_M, crash=1, hint=1, pay="bare"), M("maptree", 12, "del,delh,clear,o_handle", mode="shape", crash=1, hint=9), M("settree", 12, "del,delh,clear,o_neigh", mode="shape", crash=1, hint=9), M("settree", 5, ALL_M, crash=1, hint=64),
                  K("ktree", 4, 4, ALL_K, crash=1, cap_s=1200), K("klist", 4, 4, ALL_K, crash=1), K("ktree", 4, 3, ALL_K, crash=1, hint=0), K("ktree", 3, 3, ALL_K, crash=1, mode="full"), K("ktree", 9, 1, "fleby,get,clear,o_export", mode="shape", crash=1, hint=9, cap_s=900),
                  ] + [S(lo, hi, SA + ",o_query", crash=1) for (lo, hi) in DOMAINS_T] + [S(0, (1 << 32) - 1, SA + ",o_query", crash=1, coord="u32"), S(-(1 << 40), (1 << 40) + 5, SA + ",o_query", crash=1, coord="i64"),
